@@ -178,18 +178,22 @@ fn check_roff(input: &[u8], doc: &str) -> Result<(), Viol> {
     let expected = model_segments(input);
     let lines = roff::read(doc).map_err(|m| ("roff-unreadable", format!("{m} (document {doc:?})")))?;
     let blocks = roff::blocks(&lines);
+    // "each preceded by a foreground and a background colour request naming that segment's colours" is read as: the
+    // most recent request of each kind before the segment's text names its colour.  A document that does not repeat
+    // a request whose colour is already in force satisfies the statement, so several consecutive segments may share
+    // one run of text lines; a segment starts on a new text line.
     let mut defined: HashMap<String, String> = HashMap::new();
-    let mut text_blocks = vec![];
+    let mut in_force: [Option<String>; 2] = [None, None];
+    let mut ei = 0usize;
+    let doc_texts = || blocks.iter().filter(|b| b.has_text).map(|b| b.text_string()).collect::<Vec<_>>();
     for b in &blocks {
-        let mut fg = None;
-        let mut bg = None;
         for (name, args) in &b.requests {
             match (name.as_str(), args.as_slice()) {
                 ("defcolor", [n, scheme, value]) if scheme == "rgb" => {
                     defined.insert(n.clone(), value.to_ascii_lowercase());
                 }
-                ("gcolor", [c]) => fg = Some(c.clone()),
-                ("fcolor", [c]) => bg = Some(c.clone()),
+                ("gcolor", [c]) => in_force[0] = Some(c.clone()),
+                ("fcolor", [c]) => in_force[1] = Some(c.clone()),
                 _ => {
                     return Err((
                         "unexpected-request",
@@ -198,57 +202,81 @@ fn check_roff(input: &[u8], doc: &str) -> Result<(), Viol> {
                 }
             }
         }
-        if b.has_text {
-            let resolve = |c: Option<String>| c.map(|c| match defined.get(&c) {
-                Some(hex) => ColourSpec::Hex(hex.clone()),
-                None => ColourSpec::Name(c),
-            });
-            text_blocks.push((resolve(fg), resolve(bg), b));
+        if !b.has_text {
+            continue;
+        }
+        let resolve = |c: &Option<String>| c.as_ref().map(|c| match defined.get(c) {
+            Some(hex) => ColourSpec::Hex(hex.clone()),
+            None => ColourSpec::Name(c.clone()),
+        });
+        let (fg, bg) = (resolve(&in_force[0]), resolve(&in_force[1]));
+        let mut pos = 0usize;
+        loop {
+            let Some(e) = expected.get(ei) else {
+                return Err((
+                    "segment-count",
+                    format!(
+                        "the input has {} non-empty segment(s) {:?}, the document carries more text: {:?} (document {doc:?})",
+                        expected.len(),
+                        expected.iter().map(|e| e.text.as_str()).collect::<Vec<_>>(),
+                        doc_texts()
+                    ),
+                ));
+            };
+            let n = e.text.chars().count();
+            let end = (pos + n).min(b.text.len());
+            let got: String = b.text[pos..end].iter().map(|&(_, c)| c).collect();
+            if got != e.text {
+                return Err(("text-mismatch", format!("segment {ei}: the document carries {got:?}, the segment text is {:?} (document {doc:?})", e.text)));
+            }
+            for (what, got, want) in [("foreground", &fg, expected_colour(e.fg)), ("background", &bg, expected_colour(e.bg))] {
+                let Some(want) = want else { continue };
+                match got {
+                    None => {
+                        return Err((
+                            if what == "foreground" { "foreground-request-missing" } else { "background-request-missing" },
+                            format!("segment {ei} {:?} is not preceded by a {what} colour request (document {doc:?})", e.text),
+                        ))
+                    }
+                    Some(g) if *g != want => {
+                        return Err((
+                            if what == "foreground" { "foreground-colour" } else { "background-colour" },
+                            format!("segment {ei} {:?}: the {what} request in force names {g:?}, the segment's colour is {want:?} (document {doc:?})", e.text),
+                        ))
+                    }
+                    _ => {}
+                }
+            }
+            for (k, &(f, c)) in b.text[pos..end].iter().enumerate() {
+                if c != '\n' && f != e.font {
+                    return Err((
+                        "font",
+                        format!("segment {ei} {:?} char {k} {c:?} is set in {f:?}, the segment style needs {:?} (document {doc:?})", e.text, e.font),
+                    ));
+                }
+            }
+            pos = end;
+            ei += 1;
+            if pos == b.text.len() {
+                break;
+            }
+            // more text lines before the next control line: the next segment must start on a new line
+            if b.text[pos].1 != '\n' {
+                return Err(("text-mismatch", format!("segment {}: the document continues with {:?} on the same line (document {doc:?})", ei - 1, b.text[pos..].iter().map(|&(_, c)| c).collect::<String>())));
+            }
+            pos += 1;
         }
     }
-    if text_blocks.len() != expected.len() {
+    if ei != expected.len() {
         return Err((
             "segment-count",
             format!(
-                "the input has {} non-empty segment(s) {:?}, the document has {} text block(s) {:?} (document {doc:?})",
+                "the input has {} non-empty segment(s) {:?}, the document carries only {ei} of them: {:?} (document {doc:?})",
                 expected.len(),
                 expected.iter().map(|e| e.text.as_str()).collect::<Vec<_>>(),
-                text_blocks.len(),
-                text_blocks.iter().map(|t| t.2.text_string()).collect::<Vec<_>>()
+                doc_texts()
             ),
         ));
-    }
-    for (i, (e, (fg, bg, b))) in expected.iter().zip(text_blocks.iter()).enumerate() {
-        let got = b.text_string();
-        if got != e.text {
-            return Err(("text-mismatch", format!("segment {i}: the document carries {got:?}, the segment text is {:?} (document {doc:?})", e.text)));
-        }
-        for (what, got, want) in [("foreground", fg, expected_colour(e.fg)), ("background", bg, expected_colour(e.bg))] {
-            let Some(want) = want else { continue };
-            match got {
-                None => {
-                    return Err((
-                        if what == "foreground" { "foreground-request-missing" } else { "background-request-missing" },
-                        format!("segment {i} {:?} is not preceded by a {what} colour request (document {doc:?})", e.text),
-                    ))
-                }
-                Some(g) if *g != want => {
-                    return Err((
-                        if what == "foreground" { "foreground-colour" } else { "background-colour" },
-                        format!("segment {i} {:?}: {what} request names {g:?}, the segment's colour is {want:?} (document {doc:?})", e.text),
-                    ))
-                }
-                _ => {}
-            }
-        }
-        for (k, &(f, c)) in b.text.iter().enumerate() {
-            if c != '\n' && f != e.font {
-                return Err((
-                    "font",
-                    format!("segment {i} {:?} char {k} {c:?} is set in {f:?}, the segment style needs {:?} (document {doc:?})", e.text, e.font),
-                ));
-            }
-        }
     }
     Ok(())
 }
